@@ -95,7 +95,6 @@ func VerifC03AcceptedImpliesValid() {
 	verifReach("accepted user send", b.BlockType == nom.BlockTypeUserSend)
 	verifReach("accepted user receive", b.BlockType == nom.BlockTypeUserReceive)
 	verifReach("accepted contract receive", b.BlockType == nom.BlockTypeContractReceive)
-	c03Valid(b, c, false)
 	// second stage: transaction checks (hash, signature, key ownership, descendants)
 	c03KeyAndSignature(b, "b")
 	err, _ = c03Run(func() error { return av.AccountBlockTransaction(&nom.AccountBlockTransaction{Block: b}) })
